@@ -45,10 +45,13 @@ def run_checks(props, tier, env):
     return res
 
 
+CHECKS_OVERRIDE = None
+
+
 def run_one(sid, tier, in_place):
     d = os.path.join(ROOT, "seeded", sid)
     meta = json.load(open(os.path.join(d, "meta.json")))
-    props = meta.get("checks") or [meta["property"]]
+    props = CHECKS_OVERRIDE or meta.get("checks") or [meta["property"]]
     patch = os.path.join(d, "patch.diff")
     tmp = tempfile.mkdtemp(prefix="seed_", dir="/tmp")
     try:
@@ -94,7 +97,11 @@ def main():
     ap.add_argument("--tier", default="quick")
     ap.add_argument("--jobs", type=int, default=3)
     ap.add_argument("--in-place", action="store_true")
+    ap.add_argument("--checks", default="", help="comma separated property ids to run instead of the seed's own (results not recorded)")
     a = ap.parse_args()
+    global CHECKS_OVERRIDE
+    if a.checks:
+        CHECKS_OVERRIDE = a.checks.split(",")
     base = os.path.join(ROOT, "seeded")
     ids = a.ids or sorted(x for x in os.listdir(base) if os.path.exists(os.path.join(base, x, "meta.json")))
     bad = 0
@@ -107,8 +114,10 @@ def main():
             print(f"{status:14s} {sid}: {info[:400]}")
             sys.stdout.flush()
             bad += status != "CAUGHT"
-            results[sid] = {"status": status, "tier": a.tier, "repo_head": head, "detail": info[:300]}
-    json.dump(results, open(respath, "w"), indent=1, sort_keys=True)
+            if not a.checks:
+                results[sid] = {"status": status, "tier": a.tier, "repo_head": head, "detail": info[:300]}
+    if not a.checks:
+        json.dump(results, open(respath, "w"), indent=1, sort_keys=True)
     print(f"{len(ids) - bad}/{len(ids)} seeded changes caught")
     return 1 if bad else 0
 
